@@ -1,5 +1,5 @@
 (* C01 Dispatch: a route is chosen iff one admits the path, by the documented priority. *)
-Require Import Base Regex RegexProofs Route Tree TreeProofs TreeWf TreeAdd TreeComplete TreeDispatch Router RouterProofs RouteSpec Parser GoodParsed TreeKeys TreeLive TreePriority TreeOrdered TreeCands TreePriorityTop RouterPriority.
+Require Import Base Regex RegexProofs Route Tree TreeProofs TreeWf TreeAdd TreeComplete TreeDispatch Router RouterProofs RouteSpec Parser GoodParsed TreeKeys TreeLive TreePriority TreeOrdered TreeCands TreePriorityTop RouterPriority SpecBirth SpecCands SpecPriority SourceFacts.
 
 (* Proved (soundness half of "iff", for every tree whatsoever, every path, every header predicate):
    whatever the matcher returns is a registered root-to-leaf path of the tree that admits the
@@ -136,6 +136,71 @@ Theorem C01_router_priority : forall compile (good : list elem -> Prop),
   end.
 Proof. intros compile good G0 Inj. exact (router_priority compile good G0 Inj). Qed.
 
+(* THE DOCUMENTED PRIORITY, READ OVER THE LIST OF ROUTES (independent of the tree).  [spec_winner] enumerates, for
+   every registered route (long form, and short form when the last segment is optional) whose header constraints
+   hold, every way it admits the path, and gives each the key [(fallback, rank, birth, captured)] per depth:
+   fallback = 1 for a match-all ending the route that takes several segments (tried only after every alternative
+   that continues), rank = static < regex < placeholder < match-all, birth = the least registration index among
+   the routes that share the segment texts so far in the same role (earlier-registered wins among equals),
+   captured = the segments a match-all in the middle took (fewest first); the lexicographically least key wins.
+   For every list of accepted registrations (ids in registration order), every path and header predicate, that
+   route is the one the tree matcher answers, and the matcher answers not-found iff no route admits. *)
+Theorem C01_priority_over_routes : forall compile (good : list elem -> Prop),
+  good [] -> (forall a b, good a -> good b -> render_elems a = render_elems b -> a = b) ->
+  forall hdr_ok rs t segs,
+  (forall rid r, In (rid, r) rs -> route_good good r) -> increasing rs ->
+  reg_all compile empty rs = Some t ->
+  spec_winner compile rs hdr_ok segs = match mtree hdr_ok t segs with Some (rid, _) => Some rid | None => None end.
+Proof. intros compile good G0 Inj. exact (spec_priority compile good G0 Inj). Qed.
+
+Theorem C01_priority_over_routes_parsed : forall compile hdr_ok rs t segs,
+  (forall rid r, In (rid, r) rs -> exists s, parse s = Some r) -> increasing rs ->
+  reg_all compile empty rs = Some t ->
+  spec_winner compile rs hdr_ok segs = match mtree hdr_ok t segs with Some (rid, _) => Some rid | None => None end.
+Proof.
+  intros compile hdr_ok rs t segs P Inc H. apply (spec_priority compile pgood pgood_nil pgood_inj); auto.
+  intros rid r HIn. destruct (P rid r HIn) as [s Hs]. exact (parsed_good s r Hs).
+Qed.
+
+(* ... and at the router, in every state reachable by registrations and Headers() calls, per method *)
+Theorem C01_router_priority_over_routes : forall compile (good : list elem -> Prop),
+  good [] -> (forall a b, good a -> good b -> render_elems a = render_elems b -> a = b) ->
+  forall st mi path hdrs, reachable_p compile good st ->
+  forall t, nth_error (trees st) mi = Some t ->
+  spec_winner compile (mroutes st mi) (hdr_ok st hdrs) (segs_of path) =
+  match serve_tree st (Some mi) path hdrs with Found rid _ => Some rid | NotFound => None end.
+Proof. intros compile good G0 Inj. exact (router_spec_priority compile good G0 Inj). Qed.
+
+(* non-vacuity: three routes admit "/a/b/c" - /{x}/b/c (registered first), /a/{**} and /a/b/c: the static first
+   segment beats the earlier placeholder, and below "a" the static continuation beats the match-all *)
+Example C01_priority_over_routes_example :
+  let r0 := [mkseg false [EBind [120]%N]; mkseg false [EIdent [98]%N]; mkseg false [EIdent [99]%N]] in
+  let r1 := [mkseg false [EIdent [97]%N]; mkseg false [EBind [42; 42]%N]] in
+  let r2 := [mkseg false [EIdent [97]%N]; mkseg false [EIdent [98]%N]; mkseg false [EIdent [99]%N]] in
+  let rs := [(0, r0); (1, r1); (2, r2)] in
+  let segs := [[97]; [98]; [99]]%N in
+  increasing rs /\
+  (exists t, reg_all (fun _ => None) empty rs = Some t /\ option_map fst (mtree (fun _ => true) t segs) = Some 2) /\
+  spec_winner (fun _ => None) rs (fun _ => true) segs = Some 2 /\
+  spec_winner (fun _ => None) rs (fun rid => negb (Nat.eqb rid 2)) segs = Some 1 /\
+  spec_winner (fun _ => None) rs (fun rid => Nat.eqb rid 0) segs = Some 0.
+Proof.
+  cbv zeta. split; [repeat constructor|]. split; [eexists; split; [vm_compute; reflexivity | vm_compute; reflexivity]|].
+  vm_compute. repeat split.
+Qed.
+
+(* tie to the source, re-checked on every run against the regenerated gen/SourceFacts.v: the rank the model
+   gives a segment style is the position of its matchStyle constant in internal/route/leaf.go *)
+Definition style_name (k : kind) : str :=
+  match k with
+  | KStatic _ => [83; 116; 97; 116; 105; 99]%N
+  | KRegex _ => [82; 101; 103; 101; 120]%N
+  | KPlace _ => [80; 108; 97; 99; 101; 104; 111; 108; 100; 101; 114]%N
+  | KAll _ _ => [65; 108; 108]%N
+  end.
+Theorem C01_source_styles : length src_match_styles = 5 /\ forall k, nth_error src_match_styles (rank k) = Some (style_name k).
+Proof. split; [reflexivity | intros k; destruct k; reflexivity]. Qed.
+
 (* what "birth" is: the least id among the routes registered below *)
 Theorem C01_birth_is_least_id : forall t, kpaths t <> [] ->
   In (minrid t) (rids t) /\ forall r, In r (rids t) -> minrid t <= r.
@@ -169,6 +234,10 @@ Redirect "assum/C01.9" Print Assumptions C01_dispatch_iff_parsed.
 Redirect "assum/C01.10" Print Assumptions C01_priority.
 Redirect "assum/C01.11" Print Assumptions C01_priority_parsed.
 Redirect "assum/C01.12" Print Assumptions C01_router_priority.
+Redirect "assum/C01.13" Print Assumptions C01_priority_over_routes.
+Redirect "assum/C01.14" Print Assumptions C01_priority_over_routes_parsed.
+Redirect "assum/C01.16" Print Assumptions C01_source_styles.
+Redirect "assum/C01.15" Print Assumptions C01_router_priority_over_routes.
 Redirect "assum/C01.1" Print Assumptions C01_dispatch_sound.
 Redirect "assum/C01.2" Print Assumptions C01_serve_sound.
 Redirect "assum/C01.3" Print Assumptions C01_regex_exact.
